@@ -377,6 +377,39 @@ fn main() {
             });
             sink.count(&format!("text entry points: strings <= {n} over {} symbols", text_alpha.len()), ntexts);
             colour_sweeps(&sink, thorough);
+            // SGR sequences with malformed / truncated extended-colour forms: every sequence of a head code and up to
+            // 5 (4 in the quick tier) more fields over {2, 5, 0, 1, 255, empty} joined by ';' or ':' (other checks prune
+            // such sequences as outside their statements; here only "no panic" matters)
+            {
+                let heads = ["38", "48", "58", "4", "1", "0"];
+                let fields = ["2", "5", "0", "1", "255", ""];
+                let kmax = if thorough { 5 } else { 4 };
+                let mut total = 0u64;
+                for k in 0..=kmax {
+                    let per = (fields.len() as u64 * 2).pow(k as u32);
+                    let n = heads.len() as u64 * per;
+                    total += n;
+                    (0..n).into_par_iter().for_each(|i| {
+                        let mut inp = b"\x1b[".to_vec();
+                        inp.extend(heads[(i / per) as usize].as_bytes());
+                        let mut r = i % per;
+                        for _ in 0..k {
+                            let d = (r % (fields.len() as u64 * 2)) as usize;
+                            r /= fields.len() as u64 * 2;
+                            inp.push(if d % 2 == 0 { b';' } else { b':' });
+                            inp.extend(fields[d / 2].as_bytes());
+                        }
+                        inp.extend(b"mx");
+                        check_bytes_input(&sink, &inp);
+                        if k <= 3 {
+                            if let Ok(t) = std::str::from_utf8(&inp) {
+                                check_str_input(&sink, t, false);
+                            }
+                        }
+                    });
+                }
+                sink.count(&format!("byte entry points: SGR sequences with malformed extended-colour forms, <= {kmax} fields after the head"), total);
+            }
             // the strip stream (and the pass-through modes) over an inner writer that short-writes and fails:
             // the fault branches do offset arithmetic on the caller's buffer; only panics are this property's business
             for mode in [vchecks::fault_sys::Mode::Strip, vchecks::fault_sys::Mode::PassAnsi] {
